@@ -1012,6 +1012,117 @@ fn main() {
             }
         });
     }
+    // F2g': histories on ONE preprocessor with TWO fonts
+    {
+        use boxworks::TextPreprocessor as _;
+        // programs (all loop-free): none; ab -> KRN#0; ab -> LIG c; |a -> KRN#1; aa -> LIG/> b; a| -> LIG/ b (boundarychar c)
+        let progs: Vec<(Vec<Rule>, Option<u8>)> = vec![
+            (vec![], None),
+            (vec![Rule { left: 1, right: 1, op: 0 }], None),
+            (vec![Rule { left: 1, right: 1, op: 4 + 0 * 3 + 2 }], None),
+            (vec![Rule { left: 0, right: 0, op: 1 }], None),
+            (vec![Rule { left: 1, right: 0, op: 4 + 2 * 3 + 1 }], None),
+            (vec![Rule { left: 1, right: 2, op: 4 + 1 * 3 + 1 }], Some(b'c')),
+        ];
+        let np = progs.len() as u64;
+        let hwords: [&str; 2] = ["ab", "a"];
+        // ops: 0 activate_font(0), 1 activate_font(1), 2 add_word(w1), 3 add_word(w2), 4 new_paragraph
+        let nhist = vcore::strings_upto(5, 3);
+        let mut fb = tiny_tfm(&[], &[]);
+        let lf = u16::from_be_bytes([fb[0], fb[1]]) + 7;
+        fb[0..2].copy_from_slice(&lf.to_be_bytes());
+        fb[22..24].copy_from_slice(&7u16.to_be_bytes());
+        for k in 0..7i32 {
+            fb.extend(((k + 1) << 18).to_be_bytes());
+        }
+        let font_file = tfm::File::deserialize(&fb).0.expect("harness font");
+        let (pg, ff, sh) = (&progs, &font_file, &sh);
+        ctx.family("add-word-history", "one TextPreprocessorImpl with two registered fonts (every ordered pair of 6 small programs) x every history of <= 3 operations over {activate_font(0), activate_font(1), add_word(ab), add_word(a), new_paragraph}: the nodes each add_word appends (glyphs, ligature kind, kerns, font id) are compared with the reference interpreter under the font active at that moment", np * np * nhist, |i, acc| {
+            let d = vcore::digits(i, &[np, np, nhist]);
+            let hist = vcore::nth_string(5, d[2]);
+            let fonts: Vec<(Font, CompiledProgram)> = [d[0], d[1]]
+                .iter()
+                .map(|k| {
+                    let (rules, rbc) = &pg[*k as usize];
+                    let p = build(rules, *rbc, Layout::Consecutive).expect("program");
+                    let (prog, eps, kerns) = to_program(&p);
+                    (model_font(&p), CompiledProgram::compile(&prog, FixWord(DESIGN_SIZE), &kerns, eps).0)
+                })
+                .collect();
+            if fonts.iter().any(|f| !lk::looping_pairs(&f.0, SIM_BUDGET).is_empty()) {
+                sh.machinery.lock().unwrap().push("add-word-history: a program of the menu loops".into());
+                return;
+            }
+            acc.eval();
+            let expect = |font: &Font, w: &str| -> Vec<(Out, bool)> {
+                lk::run(font, w.as_bytes(), true, font.bchar, SIM_BUDGET).map(|m| m.nodes.iter().map(|n| match n {
+                    Node::Char(c) => (Out::G(*c), false),
+                    Node::Lig { c, .. } => (Out::G(*c), true),
+                    Node::Kern(k) => (Out::K(scaled_kern(*k)), false),
+                }).collect()).unwrap_or_default()
+            };
+            // counter from the case: the same word is added under both fonts and the fonts treat it differently
+            let mut seen: Vec<(u64, usize)> = vec![];
+            let mut active = 0usize;
+            for op in &hist {
+                match op {
+                    0 | 1 => active = *op as usize,
+                    2 | 3 => seen.push((*op, active)),
+                    _ => {}
+                }
+            }
+            let collide = seen.iter().any(|(w, f)| seen.iter().any(|(w2, f2)| w == w2 && f != f2 && expect(&fonts[0].0, hwords[(*w - 2) as usize]) != expect(&fonts[1].0, hwords[(*w - 2) as usize])));
+            if seen.len() >= 1 {
+                acc.nontrivial();
+            }
+            let (c0, c1) = (fonts[0].1.clone(), fonts[1].1.clone());
+            let h2 = hist.clone();
+            let got = catch(move || {
+                let mut tp = boxworks_text::TextPreprocessorImpl::new(Default::default());
+                tp.register_font(0, ff, c0);
+                tp.register_font(1, ff, c1);
+                let mut list = vec![];
+                let mut out: Vec<Vec<(Out, bool, u32)>> = vec![];
+                for op in &h2 {
+                    match op {
+                        0 => tp.activate_font(0),
+                        1 => tp.activate_font(1),
+                        4 => tp.new_paragraph(),
+                        w => {
+                            let start = list.len();
+                            tp.add_word(hwords[(*w - 2) as usize], &mut list);
+                            out.push(list[start..].iter().filter_map(|h| match h {
+                                boxworks::ds::Horizontal::Char(c) => Some((Out::G(c.char as u8), false, c.font)),
+                                boxworks::ds::Horizontal::Ligature(l) => Some((Out::G(l.char as u8), true, l.font)),
+                                boxworks::ds::Horizontal::Kern(k) => Some((Out::K(k.width.0 as i64), false, u32::MAX)),
+                                _ => None,
+                            }).collect());
+                        }
+                    }
+                }
+                out
+            });
+            let case = || json!({"kind": "add-word-history", "fonts": [d[0], d[1]], "history": hist, "ops": "0 activate_font(0), 1 activate_font(1), 2 add_word(ab), 3 add_word(a), 4 new_paragraph", "programs": [describe_rules(&pg[d[0] as usize].0, pg[d[0] as usize].1), describe_rules(&pg[d[1] as usize].0, pg[d[1] as usize].1)]});
+            match got {
+                Err(p) => acc.fail(i, case(), "returns", p.describe(), "add_word history panicked"),
+                Ok(out) => {
+                    let mut ok = true;
+                    for ((w, f), g) in seen.iter().zip(out.iter()) {
+                        let want = expect(&fonts[*f].0, hwords[(*w - 2) as usize]);
+                        let same = want.len() == g.len() && want.iter().zip(g.iter()).all(|((wo, wl), (go, gl, gf))| wo == go && (!*wl || *gl) && (*gf == u32::MAX || *gf == *f as u32));
+                        if !same {
+                            acc.fail(i, case(), format!("add_word({}) under font {f}: {want:?} (glyph/kern, ligature?) with font id {f}", hwords[(*w - 2) as usize]), format!("{g:?} (glyph/kern, ligature?, font id)"), "the nodes add_word appends differ from the lig/kern program of the active font");
+                            ok = false;
+                            break;
+                        }
+                    }
+                    if ok && collide {
+                        acc.count("same_word_added_under_two_fonts_with_different_programs");
+                    }
+                }
+            }
+        });
+    }
     // F2h: kern amounts at design sizes where TeX §572 halves z (C17 owns the arithmetic; here the kern a run emits)
     {
         let sizes: [(&str, i32); 8] = [("10pt", 10 << 20), ("1pt", 1 << 20), ("127.99999pt", (128 << 20) - 10), ("128pt", 128 << 20), ("130.0001pt", (130 << 20) + 105), ("200pt + 16 units", (200 << 20) + 16), ("700.00005pt", (700 << 20) + 52), ("2047.9999pt", (2047 << 20) + 1048471)];
@@ -1082,6 +1193,7 @@ fn main() {
     ctx.require("left_boundary_rule_fired", "a left boundary rule fired");
     ctx.require("right_boundary_rule_fired", "a rule fired against the right boundary character");
     ctx.require("ligature_glyph_equals_its_single_original_char", "add_word route: a ligature node whose glyph is its single original character, no boundary involved (e.g. LIG/> re-inserting the character it deletes)");
+    ctx.require("same_word_added_under_two_fonts_with_different_programs", "add_word history: the same word is added under both fonts of one preprocessor and the two programs treat it differently");
     ctx.require("add_word_route_compared", "words whose horizontal list from add_word / add_text was compared");
     ctx.require("one_char_word_with_boundary_rule", "a one-character word for which a left- or right-boundary rule fires, through add_word");
     ctx.require("negative_kern_at_design_size_ge_128pt", "a negative kern emitted at a design size of 128pt or more");
